@@ -2940,14 +2940,17 @@ impl Planner {
         // Add the merged node variable to output columns
         columns.push(merge.variable.clone());
 
-        let operator: Box<dyn Operator> = Box::new(MergeOperator::new(
-            Arc::clone(&self.store),
-            merge.variable.clone(),
-            merge.labels.clone(),
-            match_properties,
-            on_create_properties,
-            on_match_properties,
-        ));
+        let operator: Box<dyn Operator> = Box::new(
+            MergeOperator::new(
+                Arc::clone(&self.store),
+                merge.variable.clone(),
+                merge.labels.clone(),
+                match_properties,
+                on_create_properties,
+                on_match_properties,
+            )
+            .with_tx_context(self.viewing_epoch, self.write_epoch(), self.tx_id),
+        );
 
         Ok((operator, columns))
     }
